@@ -1,5 +1,8 @@
 SPECIFICATION TSpec
 CONSTANTS
+  FixReturn = TRUE
+  FixOrigin = TRUE
+  Inherit = TRUE
   Variant = "fixed"
 CONSTRAINT JudgeP
 CONSTRAINT JudgeM
